@@ -241,7 +241,8 @@ def createAtomicConfigs : List (Option Inode × Option Path × Path × Nat × Li
   [(none, none, ["R", "tmp"], 0, exChunks, false), (some exOldFile, none, ["R", "tmp"], 0o600, exChunks, false),
    (some exOldFile, some ["R", "tmp2"], ["R", "tmp"], 0o644, exChunks, false),
    (some exOldFile, none, ["X"], 0, exChunks, true), (none, some ["R", "tmp2"], ["R", "tmp"], 0o600, exChunks, true),
-   (some exOldFile, none, ["R", "missing"], 0o600, [], false), (some exOldFile, none, ["R", "tmp"], 0o600, exChunks, true)]
+   (some exOldFile, none, ["R", "missing"], 0o600, [], false), (some exOldFile, none, ["R", "tmp"], 0o600, exChunks, true),
+   (some exOldFile, some ["X"], ["R", "tmp"], 0o600, exChunks, false)]
 
 def caNew (cfg : Option Inode × Option Path × Path × Nat × List Seg × Bool) : Obs :=
   some (.file (written cfg.2.2.2.2.1), [])
@@ -258,6 +259,18 @@ theorem createAtomic_explored : ∀ cfg ∈ createAtomicConfigs,
         (chkInit (worldFS cfg.1) destF (worldOld cfg.1) (caNew cfg)) 0) = true := by
     decide +kernel
   exact fun cfg hc => List.all_eq_true.1 h cfg hc
+
+/-- fstree.Put on a nested key whose directory does not exist (writeFile fails with ENOENT from the model,
+    MkdirAll, second writeFile), TMPDIR same fs / other fs / missing, no injected failure: the whole run is
+    accepted (hence atomic at each of its crash points by `safePublish_sound`), only allowed names are created,
+    and it ends with the new content in place. (The exploration of ALL failure patterns of the two-attempt
+    program is the product of two `writeFile_explored` trees and is not evaluated in the kernel.) -/
+theorem fstreePut_retry_path_safe : ∀ tmpdir ∈ [["R", "tmp"], ["X"], ["R", "missing"]],
+    let t := runProg (fstreePutP tmpdir destF exChunks) worldNested (oracleOf 0 (List.replicate 40 false))
+    safePublish worldNested destF none (some (.file (written exChunks), [])) t = true ∧
+    onlyTemp destF exTmp t = true ∧
+    vview (run worldNested t) destF = some (.file (written exChunks), []) := by
+  decide +kernel
 
 /-- renameio.Symlink over an absent destination, an existing symlink and an existing regular file. -/
 theorem symlink_explored : ∀ old ∈ [none, some exOldLink, some exOldFile],
